@@ -20,6 +20,7 @@ from liquid.builtin.expressions import Path
 from liquid.builtin.expressions import StringLiteral
 from liquid.builtin.expressions import parse_identifier
 from liquid.builtin.expressions import parse_primitive
+from liquid.builtin.expressions import quote_identifier
 from liquid.builtin.tags.for_tag import ForLoop
 from liquid.builtin.tags.include_tag import TAG_INCLUDE
 from liquid.exceptions import LiquidSyntaxError
@@ -76,7 +77,12 @@ class RenderNode(Node):
         if self.args:
             var += ","
         args = " " + ", ".join(str(arg) for arg in self.args) if self.args else ""
-        return f"{{% render {self.name}{var}{args} %}}"
+        name = (
+            quote_identifier(self.name)
+            if isinstance(self.name, Identifier)
+            else str(self.name)
+        )
+        return f"{{% render {name}{var}{args} %}}"
 
     def render_to_output(self, context: RenderContext, buffer: TextIO) -> int:
         """Render the node to the output buffer."""
